@@ -326,6 +326,28 @@ class Interp:
                 st.env[n.id] = ("unknown", f"{n.id} (assigned in unsupported {type(s).__name__})")
         return st
 
+    @staticmethod
+    def _narrow_none_test(test, st_true, st_false):
+        """`if x is None` / `if x is not None` on a variable holding `present ? V : None` (the
+        result of D.get(k)): in the branch where x is not None, x is V and `present` holds"""
+        if not (isinstance(test, ast.Compare) and len(test.ops) == 1
+                and isinstance(test.ops[0], (ast.Is, ast.IsNot))
+                and isinstance(test.left, ast.Name)
+                and isinstance(test.comparators[0], ast.Constant)
+                and test.comparators[0].value is None):
+            return
+        var = test.left.id
+        notnone = st_false if isinstance(test.ops[0], ast.Is) else st_true
+        t = notnone.env.get(var)
+        if t is None or t[0] != "phi":
+            return
+        if t[3] == CONST_NONE and t[2] != CONST_NONE:
+            notnone.env[var] = t[2]
+            notnone.pc = notnone.pc + (t[1],)
+        elif t[2] == CONST_NONE and t[3] != CONST_NONE:
+            notnone.env[var] = t[3]
+            notnone.pc = notnone.pc + (("not", t[1]),)
+
     def _if(self, s, st, act):
         c = self._eval(s.test, st, act)
         tc = truth_const(c)
@@ -334,9 +356,10 @@ class Interp:
         if tc is False:
             return self._block(s.orelse, st, act) if s.orelse else st
         base_pc = st.pc
-        s1 = self._block(s.body, st.fork(c), act)
-        s2 = self._block(s.orelse, st.fork(("not", c)), act) if s.orelse \
-            else st.fork(("not", c))
+        st_true, st_false = st.fork(c), st.fork(("not", c))
+        self._narrow_none_test(s.test, st_true, st_false)
+        s1 = self._block(s.body, st_true, act)
+        s2 = self._block(s.orelse, st_false, act) if s.orelse else st_false
         if s1 is None and s2 is None:
             return None
         if s1 is None:
@@ -435,6 +458,21 @@ class Interp:
             if view == "values":
                 return base, lambda e: ("sub", base, e)
             return base, lambda e: e
+        # enumerate(X, start=k) / enumerate(X, k): positions of enumerate(X), shifted by k
+        if it[0] == "call" and it[1] == "builtins.enumerate" and (
+                (len(it[2]) == 2 and not it[3]) or
+                (len(it[2]) == 1 and len(it[3]) == 1 and it[3][0][0] == "start")):
+            k = it[2][1] if len(it[2]) == 2 else it[3][0][1]
+            plain = ("call", "builtins.enumerate", (it[2][0],), (), it[4] if len(it) > 4 else None)
+            base2, inner = Interp._mapping_view(plain)
+
+            def shifted(e, k=k, inner=inner):
+                v = inner(e) if inner is not None else ("tuple", (("proj", e, 0), ("proj", e, 1)))
+                idx = v[1][0]
+                if is_const(k) and k[1] == 0:
+                    return v
+                return ("tuple", (("bin", "+", idx, k), v[1][1]))
+            return base2, shifted
         # enumerate(<view of D>): one enumeration of the mapping's keys
         if it[0] == "call" and it[1] == "builtins.enumerate" and len(it[2]) == 1 and not it[3]:
             inner_it = it[2][0]
@@ -453,8 +491,61 @@ class Interp:
                 return new_it, build
         return it, None
 
+    def _empty_literal(self, t):
+        if t[0] == "mcall" and t[2] in ("items", "keys", "values") and not t[3] and not t[4]:
+            return self._empty_literal(t[1])
+        if t[0] == "dictobj":
+            h = self.heap[t[1]]
+            return not h["items"] and not h["dyn"]
+        if t[0] == "listobj":
+            h = self.heap[t[1]]
+            return not h["elts"] and not h["dyn"]
+        if t[0] in ("tuple", "list", "setlit"):
+            return not t[1]
+        return is_const(t) and t[1] in ((), "")
+
+    def _nonempty_alternative(self, it):
+        """iterating `c ? A : <empty literal>` visits A's elements, under c: (A, c) or None.
+        Views of such a conditional (`.items()` ...) are looked through."""
+        if it[0] == "mcall" and it[2] in ("items", "keys", "values") and not it[3] and not it[4]:
+            r = self._nonempty_alternative(it[1])
+            if r is not None:
+                return ("mcall", r[0], it[2], (), ()), r[1]
+            return None
+        if it[0] == "phi":
+            if self._empty_literal(it[3]):
+                return it[2], it[1]
+            if self._empty_literal(it[2]):
+                return it[3], ("not", it[1])
+        return None
+
     def _for(self, s, st, act):
-        it = self._eval(s.iter, st, act)
+        forced = getattr(s, "_forced_iter", None)
+        it = self._eval(s.iter, st, act) if forced is None else forced
+        alt = self._nonempty_alternative(it) if forced is None else None
+        if alt is not None:
+            # no iterations on the empty side: the loop runs over the other side, under its
+            # condition; names assigned in the body merge as for an `if`
+            inner = ast.For(target=s.target, iter=s.iter, body=s.body, orelse=s.orelse,
+                            type_comment=None, lineno=s.lineno, col_offset=s.col_offset)
+            inner._forced_iter = alt[0]
+            base_pc = st.pc
+            s1 = self._for(inner, st.fork(alt[1]), act)
+            s2 = st.fork(("not", alt[1]))
+            if s1 is None:
+                return s2
+            env = {}
+            for k in set(s1.env) | set(s2.env):
+                a, b = s1.env.get(k), s2.env.get(k)
+                env[k] = a if a == b else ("phi", alt[1], a if a is not None else ("undef", k),
+                                           b if b is not None else ("undef", k))
+            ov = dict(s2.ov)
+            for k in set(s1.ov) | set(s2.ov):
+                dflt = ("sub", k[0], C(k[1][1])) if isinstance(k[1], tuple) \
+                    else ("attr", k[0], k[1])
+                a, b = s1.ov.get(k, dflt), s2.ov.get(k, dflt)
+                ov[k] = a if a == b else ("phi", alt[1], a, b)
+            return _State(env, base_pc, ov)
         elts = self._literal_elements(it)
         if elts is not None and len(elts) <= 16 and not s.orelse and not any(
                 isinstance(n, (ast.Continue, ast.Break)) for b in s.body for n in ast.walk(b)):
@@ -466,6 +557,7 @@ class Interp:
                     return None
             return st
         lid = self.new_id()
+        it0 = it
         it, view = self._mapping_view(it)
         self.loops[lid] = {"iter": it, "func": act.fi.fq, "lineno": s.lineno,
                            "kind": "for", "target": ast.unparse(s.target), "pc": st.pc}
@@ -479,6 +571,23 @@ class Interp:
         if view is not None:
             elem = view(elem)
         src = self._iter_source(it) if view is None else None
+        if it[0] == "comp" and it[1] == "dict" and len(it[2]) == 2 and (
+                view is not None or it0 is it):
+            # iterating a mapping built by a dict comprehension {k(x): v(x) for x in A if P}: its
+            # keys are k(x), its values v(x), for the comprehension's own x
+            extra = ()
+            for glid, git, conds in it[3]:
+                extra = extra + (("inloop", glid),) + tuple(conds)
+            k_, v_ = it[2]
+            kind = it0[2] if (it0[0] == "mcall" and it0 is not it) else "keys"
+            el = {"items": ("tuple", (k_, v_)), "values": v_}.get(kind, k_)
+            src = (el, extra)
+        if src is None and view is None and it[0] == "call" and it[1] == "builtins.enumerate" \
+                and len(it[2]) == 1 and not it[3]:
+            # enumerate(<produced list>): the producer's element, paired with a position
+            inner = self._iter_source(it[2][0])
+            if inner is not None and any(c[0] == "inloop" for c in inner[1]):
+                src = (("tuple", (("proj", elem, 0), inner[0])), inner[1])
         if src is not None:
             # iterating a list that was built by one append in producer loops, or an identity
             # comprehension `[x for x in A if P(x)]`: visit the producer's element under the
@@ -553,10 +662,13 @@ class Interp:
                 extra = tuple(c for c in extra if c[0] != "fact")
                 return apps[0][1][0], extra
             return None
-        if it[0] == "comp" and it[1] in ("list", "gen") and len(it[3]) == 1 and len(it[2]) == 1:
-            # `[f(x) for x in A if P(x)]` is the list built by `for x in A: if P(x): append(f(x))`
-            glid, git, conds = it[3][0]
-            return it[2][0], (("inloop", glid),) + tuple(conds)
+        if it[0] == "comp" and it[1] in ("list", "gen") and len(it[3]) >= 1 and len(it[2]) == 1:
+            # `[f(x) for x in A if P(x) for y in B ...]` is the list built by the nested loops
+            # `for x in A: if P(x): for y in B: append(f(x))`
+            extra = ()
+            for glid, git, conds in it[3]:
+                extra = extra + (("inloop", glid),) + tuple(conds)
+            return it[2][0], extra
         if it[0] == "call" and it[1] in ("builtins.list", "builtins.tuple", "builtins.iter") \
                 and len(it[2]) == 1:
             return self._iter_source(it[2][0])
@@ -1496,6 +1608,13 @@ class Interp:
             # getattr(obj, "name") with a literal name (e.g. from an unrolled table) is obj.name
             return self._getattr(args[0], args[1][1], st, act, e)
         if fname == "builtins.isinstance" and len(args) == 2:
+            if args[0][0] == "phi":
+                # isinstance of a conditional value: per alternative (a literal default folds)
+                a = self._opaque_call(fname, [args[0][2], args[1]], kwargs, star, dstar,
+                                      st.fork(args[0][1]), act, e)
+                b = self._opaque_call(fname, [args[0][3], args[1]], kwargs, star, dstar,
+                                      st.fork(("not", args[0][1])), act, e)
+                return a if a == b else ("phi", args[0][1], a, b)
             r = self._isinstance(args[0], args[1])
             if r is not None:
                 return C(r)
@@ -1576,6 +1695,24 @@ class Interp:
             h["dyn"].append((("unknown", name), tuple(args), st.pc))
         elif recv[0] == "dictobj" and name in ("pop", "setdefault", "clear", "popitem"):
             self.heap[recv[1]]["dyn"].append((("unknown", name), tuple(args), st.pc))
+        if name == "setdefault" and len(args) == 2 and not kwargs and is_const(args[0]) \
+                and isinstance(args[0][1], str) and recv[0] not in ("dictobj", "listobj"):
+            # D.setdefault('k', d) on a mapping that is not a local literal: `if 'k' not in D:
+            # D['k'] = d` followed by a read of D['k']
+            present = ("cmp", "in", args[0], recv)
+            cur = st.ov.get((recv, ("key", args[0][1])), ("sub", recv, args[0]))
+            absent_st = st.fork(("not", present))
+            self._emit("store", absent_st, e, act, target="sub", base=recv, idx=args[0],
+                       value=args[1], aug=None)
+            val = ("phi", present, cur, args[1])
+            st.ov[(recv, ("key", args[0][1]))] = val
+            return val
+        if name == "get" and not kwargs and recv[0] not in ("dictobj", "listobj", "const") \
+                and (len(args) == 1 or (len(args) == 2 and args[1] == CONST_NONE)):
+            # D.get(k) on a mapping that is not a local literal: the entry when present, else None
+            self._emit("mcall", st, e, act, recv=recv, name=name, args=tuple(args), kwargs=kws,
+                       result=t)
+            return ("phi", ("cmp", "in", args[0], recv), ("sub", recv, args[0]), CONST_NONE)
         if recv[0] == "dictobj" and name == "get" and args and is_const(args[0]):
             h = self.heap[recv[1]]
             if not h["dyn"]:
